@@ -166,8 +166,8 @@ enum Op {
     Delete(usize, Cond),
     /// `batch_insert`: rows appended outside any transaction (no lock, no transaction id)
     BatchInsert(usize, Vec<Vec<i64>>),
-    /// `drop_table` / `create_table` under the SAME name again — not in the Lean model: scripts with these run on the
-    /// real engine only
+    /// `drop_table` / `create_table` under the SAME name again (`DdlModel.lean`): refused with a lock conflict while an
+    /// open transaction has uncommitted changes in the table (6f865e8a)
     DropTable(usize),
     RecreateTable(usize),
     CreateIndex(usize, usize),
@@ -219,7 +219,7 @@ impl Op {
             Op::BatchInsert(t, rows) => format!("batch_insert {t} {}",
                 if rows.is_empty() { "-".to_string() } else { rows.iter().map(|v| vals_tok(v)).collect::<Vec<_>>().join(";") }),
             Op::DropTable(t) => format!("drop_table {t}"),
-            Op::RecreateTable(t) => format!("recreate_table {t}"),
+            Op::RecreateTable(t) => format!("recreate_table {t} {NCOLS}"),
             Op::CreateIndex(t, c) => format!("create_index {t} {c}"),
             Op::CreateBtree(t, c) => format!("create_btree {t} {c}"),
             Op::DropIndex(t, c) => format!("drop_index {t} {c}"),
@@ -278,6 +278,7 @@ fn err_class(e: &RelationalError) -> String {
         RelationalError::IndexAlreadyExists { .. } => "index_exists".into(),
         RelationalError::IndexNotFound { .. } => "index_not_found".into(),
         RelationalError::RollbackFailed { .. } => "rollback_failed".into(),
+        RelationalError::TableAlreadyExists(_) => "table_exists".into(),
         RelationalError::NullNotAllowed(_) | RelationalError::TypeMismatch { .. } => "bad_input".into(),
         other => {
             let d = format!("{other:?}");
@@ -360,8 +361,14 @@ struct World {
     idx_created: BTreeMap<(usize, usize, bool), usize>,
     /// highest row id ever seen alive, per table
     hi: Vec<u64>,
-    /// tables dropped while an open transaction had uncommitted changes in them
-    dropped_under_tx: BTreeSet<usize>,
+    /// tables dropped while an open transaction had uncommitted changes in them (regression of 6f865e8a): table ->
+    /// (handles that had written it, step of the drop)
+    dropped_under_tx: BTreeMap<usize, (BTreeSet<usize>, usize)>,
+    /// (table, column) that had a b-tree index when the table was dropped -> step of the drop (6992261a: the in-memory
+    /// tree must go with the table)
+    btree_at_drop: BTreeMap<(usize, usize), usize>,
+    /// step of the statement being executed (set by `exec_script`)
+    step_now: usize,
     /// nullable columns per table (as created)
     nullable: Vec<Vec<usize>>,
     vnow: u64,
@@ -398,7 +405,9 @@ impl World {
             idx_reported: BTreeSet::new(),
             idx_created: BTreeMap::new(),
             hi: vec![],
-            dropped_under_tx: BTreeSet::new(),
+            dropped_under_tx: BTreeMap::new(),
+            btree_at_drop: BTreeMap::new(),
+            step_now: 0,
             nullable: vec![],
             vnow: 0,
             lock_ms: cfg.lock_secs * 1000,
@@ -470,7 +479,8 @@ impl World {
                 self.hi.resize(t + 1, 0);
             }
             self.hi[t] = self.hi[t].max(imgs[t].keys().max().copied().unwrap_or(0));
-            for id in 1..=(self.hi[t] + 4) {
+            // id 0 is no row (engine ids start at 1): a lock filed there is a lock on the wrong key
+            for id in 0..=(self.hi[t] + 4) {
                 if let Some(r) = self.eng.tx_manager().row_lock_holder(&Self::tname(t), id) {
                     m.insert((t, id), r);
                 }
@@ -548,6 +558,7 @@ impl World {
                 Err(e) => format!("err {}", err_class(&e)),
             },
             Op::DropTable(t) => {
+                let btree_before = self.btree_cols(*t);
                 let r = unit(self.eng.drop_table(&Self::tname(*t)));
                 if r == "ok" {
                     // the committed rows of the table are gone with it
@@ -555,15 +566,30 @@ impl World {
                         b.clear();
                     }
                     self.log.retain(|e| e.1 .0 != *t);
-                    if self.handles.values().any(|h| h.state == HState::Active && h.first_touch.keys().any(|k| k.0 == *t)) {
-                        self.dropped_under_tx.insert(*t);
+                    self.taint.retain(|k, _| k.0 != *t);
+                    let writers: BTreeSet<usize> = self.handles.iter()
+                        .filter(|(_, h)| h.state == HState::Active && h.first_touch.keys().any(|k| k.0 == *t)).map(|(g, _)| *g).collect();
+                    if !writers.is_empty() {
+                        self.dropped_under_tx.insert(*t, (writers, self.step_now));
                     }
+                    for c in btree_before {
+                        self.btree_at_drop.insert((*t, c), self.step_now);
+                    }
+                    // the indexes went with the table: one created on a later table of the name is judged anew
+                    self.idx_created.retain(|k, _| k.0 != *t);
+                    self.idx_reported.retain(|k| k.0 != *t);
                 }
                 r
             },
             Op::RecreateTable(t) => {
                 let schema = Schema::new((0..NCOLS).map(|c| Column::new(format!("c{c}"), ColumnType::Int)).collect());
-                unit(self.eng.create_table(&Self::tname(*t), schema))
+                let r = unit(self.eng.create_table(&Self::tname(*t), schema));
+                if r == "ok" {
+                    if let Some(nl) = self.nullable.get_mut(*t) {
+                        nl.clear();
+                    }
+                }
+                r
             },
             Op::CreateIndex(t, c) => unit(self.eng.create_index(&Self::tname(*t), &format!("c{c}"))),
             Op::CreateBtree(t, c) => unit(self.eng.create_btree_index(&Self::tname(*t), &format!("c{c}"))),
@@ -680,6 +706,7 @@ fn exec_script(ops: &[Op], cfg: Cfg, mut model: Option<&mut Model>) -> Outcome {
     }
     for (step, op) in ops.iter().enumerate() {
         out.steps_done = step + 1;
+        w.step_now = step;
         let before = w.images();
         let holders_before = if matches!(op, Op::Tick(_) | Op::Sweep) { BTreeMap::new() } else { w.holders(&before) };
         let r_real = w.exec_real(op);
@@ -756,6 +783,32 @@ fn exec_script(ops: &[Op], cfg: Cfg, mut model: Option<&mut Model>) -> Outcome {
                 w.idx_created.insert(key, step);
                 w.idx_reported.remove(&key);
             }
+        }
+
+        // ---- drop_table next to open transactions (6f865e8a; `drop_table_refused_while_open_transaction_wrote_table`,
+        // `accepted_drop_table_leaves_no_undo_entry_behind`): the drop is accepted iff no open transaction has
+        // uncommitted changes in the table — decided from the harness's own record of who wrote what
+        if let Op::DropTable(t) = op {
+            let writers: Vec<usize> = w.handles.iter()
+                .filter(|(_, h)| h.state == HState::Active && h.first_touch.keys().any(|k| k.0 == *t)).map(|(g, _)| *g).collect();
+            if ok && !writers.is_empty() {
+                out.viol("relational_engine.drop_table/accepted_under_open_transaction".into(),
+                         format!("{} accepted although open transaction(s) {:?} have uncommitted changes in the table (rows {:?}): their undo entries \
+                                  and row locks still name it", op.show(), writers.iter().map(|g| format!("h{g}")).collect::<Vec<_>>(),
+                                 writers.iter().flat_map(|g| w.handles[g].first_touch.keys().filter(|k| k.0 == *t).map(|k| k.1)).collect::<Vec<_>>()), step);
+            } else if r_real == "err lock_conflict" {
+                if writers.is_empty() {
+                    out.viol("relational_engine.drop_table/refused_without_open_writer".into(),
+                             format!("{} refused with a lock conflict although no open transaction has uncommitted changes in the table", op.show()), step);
+                } else {
+                    out.hit("drop_table_refused:open_transaction_wrote_table");
+                }
+            } else if ok {
+                out.hit(if w.active_handles().is_empty() { "drop_table_accepted:no_transaction_open" } else { "drop_table_accepted:open_transactions_elsewhere" });
+            }
+        }
+        if let (Op::RecreateTable(_), true) = (op, ok) {
+            out.hit("table_recreated_under_same_name");
         }
 
         // ---- diff of the real full-scan images
@@ -940,6 +993,8 @@ fn exec_script(ops: &[Op], cfg: Cfg, mut model: Option<&mut Model>) -> Outcome {
                                      format!("{} = [{r_real}], select of the same condition = [{want}]", op.show()), step);
                         }
                     },
+                    // a table dropped meanwhile: both must fail the same way
+                    Err(e) if r_real == format!("err {e}") => out.hit("tx_select_on_dropped_table"),
                     Err(e) => out.viol("relational_engine.tx_select/differs_from_select".into(),
                                        format!("{} = [{r_real}], select of the same condition fails with {e}", op.show()), step),
                 }
@@ -1096,6 +1151,26 @@ fn exec_script(ops: &[Op], cfg: Cfg, mut model: Option<&mut Model>) -> Outcome {
                 }
             }
         }
+        // inserted-row lock oracle: `tx_insert` locks the row it creates and nothing else — no other key (another row,
+        // or the non-row id 0) gets a new holder through it
+        if let (Op::TxInsert(h, t, _), true) = (op, ok) {
+            let new_id = r_real.strip_prefix("ok ").and_then(|x| x.parse::<u64>().ok()).unwrap_or(0);
+            if let Some(real) = w.handles.get(h).filter(|x| x.state == HState::Active).map(|x| x.real) {
+                let holders_after = w.holders(&after);
+                out.hit("tx_insert_lock_check");
+                if holders_after.get(&(*t, new_id)) == Some(&real) {
+                    out.hit("tx_insert_lock_check:new_row_held_by_inserter");
+                }
+                for (k, r) in &holders_after {
+                    if *k != (*t, new_id) && *r == real && holders_before.get(k) != Some(r) {
+                        out.viol("relational_engine.tx_insert/lock_taken_on_other_row".into(),
+                                 format!("{} created row ({t},{new_id}) but its transaction now also holds the lock of {k:?}, which it did not hold before \
+                                          (row_lock_holder before: {:?}); the new row's holder is {:?}", op.show(), holders_before.get(k),
+                                         holders_after.get(&(*t, new_id))), step);
+                    }
+                }
+            }
+        }
         if let Some(h) = ended {
             if matches!(op, Op::Commit(_) | Op::Rollback(_)) {
                 // the end of a transaction that wrote an INDEXED column back with its current value (index oracle below)
@@ -1184,7 +1259,11 @@ fn exec_script(ops: &[Op], cfg: Cfg, mut model: Option<&mut Model>) -> Outcome {
             let (hc, bc) = (w.hash_cols(t), w.btree_cols(t));
             if let Some(m) = mdl!() {
                 let rows: Vec<(u64, Vec<i64>)> = after[t].iter().map(|(k, v)| (*k, v.clone())).collect();
-                let img = format!("img {}|H:{}|B:{}", rows_tok(&rows), World::nats(&hc), World::nats(&bc));
+                let img = if w.eng.table_exists(&World::tname(t)) {
+                    format!("img {}|H:{}|B:{}", rows_tok(&rows), World::nats(&hc), World::nats(&bc))
+                } else {
+                    "err table_not_found".to_string()
+                };
                 let a = m.ask(&format!("image {t}"));
                 if !cmp(&mut out, "image", step, &format!("image {t}"), &img, &a) {
                     diverged = true;
@@ -1218,6 +1297,18 @@ fn exec_script(ops: &[Op], cfg: Cfg, mut model: Option<&mut Model>) -> Outcome {
                             Op::Rollback(h) if ended == Some(*h) => w.handles.get(h),
                             _ => None,
                         };
+                        // 6992261a: a b-tree index created on a table whose NAME carried a b-tree index on the same column when
+                        // an earlier table of that name was dropped answers a row twice — the dropped table's tree was
+                        // still filed under the name (`drop_table_keeps_btree_map_witness`)
+                        let stale_tree = key.2 && dup && !missing
+                            && w.btree_at_drop.get(&(t, key.1)).is_some_and(|ds| w.idx_created.get(&key).is_some_and(|ci| ci > ds));
+                        if stale_tree {
+                            out.viol("relational_engine.btree_index/stale_in_memory_tree_after_drop_table".into(),
+                                     format!("select t{t} {} through the b-tree index = [{}], full scan + filter = [{}]; the index was created at step {} on a table \
+                                              created after `drop_table t{t}` (step {}), and the dropped table had a b-tree index on c{}: its in-memory tree \
+                                              outlived the table", c.tok(), rows_tok(got), rows_tok(&want), w.idx_created[&key], w.btree_at_drop[&(t, key.1)], key.1), step);
+                            continue;
+                        }
                         let mut extra = String::new();
                         let kind = match rb {
                             Some(hd) => {
@@ -1343,21 +1434,37 @@ fn exec_script(ops: &[Op], cfg: Cfg, mut model: Option<&mut Model>) -> Outcome {
             out.discarded = true;
             return out;
         }
-        // CANDIDATE FINDING (reported, not yet decided): `drop_table` does not look at open transactions.  Once a table
-        // has been dropped under a transaction that wrote it, what that transaction's rollback does (fails, or rewrites
-        // the rows of a table created under the same name since) is filed under one class of its own; `absorb` records
-        // it as an observation.
-        if !w.dropped_under_tx.is_empty() {
-            let recreated = ops[..=step].iter().any(|o| matches!(o, Op::RecreateTable(t) if w.dropped_under_tx.contains(t)));
-            let class = if recreated { "relational_engine.drop_table/open_transaction_undo_applied_to_recreated_table" }
-                        else { "relational_engine.drop_table/open_transaction_rollback_fails_after_drop" };
-            // one entry for the script: every oracle verdict since the drop, in order
-            let (mine, rest): (Vec<_>, Vec<_>) = std::mem::take(&mut out.violations).into_iter()
-                .partition(|v| !v.0.starts_with("relational_engine.drop_table/") || v.0 == class);
-            out.violations = rest;
-            if !mine.is_empty() {
-                let what = mine.iter().map(|v| if v.0 == class { v.1.clone() } else { format!("[{}] {}", v.0, v.1) }).collect::<Vec<_>>().join(" || ");
-                out.violations.push((class.to_string(), what, step));
+        // REGRESSION of 6f865e8a (`rollback_never_touches_table_created_after_own_writes`,
+        // `undo_entries_name_existing_tables`): a table was dropped under a transaction that had written it, and that
+        // transaction now rolls back.  What the snapshot oracle has just reported about THIS rollback is filed under one
+        // class computed from the trace: the undo reached the rows of a table created under the name since the drop, or
+        // the rollback found no table and failed.
+        if let Op::Rollback(h) = op {
+            let hit: Vec<usize> = w.dropped_under_tx.iter().filter(|(_, (ws, _))| ws.contains(h)).map(|(t, _)| *t).collect();
+            if ended == Some(*h) && !hit.is_empty() {
+                let recreated: Vec<usize> = hit.iter().copied().filter(|t| {
+                    let at = w.dropped_under_tx[t].1;
+                    ops[..step].iter().enumerate().any(|(i, o)| i > at && matches!(o, Op::RecreateTable(t2) if t2 == t))
+                }).collect();
+                let new_rows_changed: Vec<&(Key, Option<Vec<i64>>, Option<Vec<i64>>)> = diff.iter().filter(|d| recreated.contains(&d.0 .0)).collect();
+                let class = if !new_rows_changed.is_empty() {
+                    Some("relational_engine.drop_table/open_transaction_undo_applied_to_recreated_table")
+                } else if !ok {
+                    Some("relational_engine.drop_table/open_transaction_rollback_fails_after_drop")
+                } else {
+                    None
+                };
+                if let Some(class) = class {
+                    let (mine, rest): (Vec<_>, Vec<_>) = std::mem::take(&mut out.violations).into_iter()
+                        .partition(|v| v.2 == step && v.0.starts_with("relational_engine.rollback/"));
+                    out.violations = rest;
+                    let detail = mine.iter().map(|v| format!("[{}] {}", v.0, v.1)).collect::<Vec<_>>().join(" || ");
+                    out.viol(class.to_string(),
+                             format!("table(s) {:?} were dropped while h{h} had uncommitted changes in them{}; {} -> {r_real}; rows of the table created \
+                                      since that changed: {:?}{}{detail}", hit.iter().map(|t| World::tname(*t)).collect::<Vec<_>>(),
+                                     if recreated.is_empty() { "" } else { " and created again under the same name" }, op.show(),
+                                     new_rows_changed, if detail.is_empty() { "" } else { " — " }), step);
+                }
             }
         }
     }
@@ -1436,6 +1543,8 @@ struct Sim {
     owner: BTreeMap<Key, usize>,
     undo: BTreeMap<usize, Vec<(Key, Option<Vec<i64>>)>>,
     indexed: Vec<BTreeSet<(usize, bool)>>,
+    /// false while the table name is unused (dropped and not created again)
+    exists: Vec<bool>,
 }
 
 impl Sim {
@@ -1451,6 +1560,9 @@ impl Sim {
         }
     }
     fn matched(&self, h: Option<usize>, t: usize, c: &Cond) -> Option<Vec<u64>> {
+        if self.exists.get(t) != Some(&true) {
+            return None;
+        }
         let ids: Vec<u64> = self.rows.get(t)?.iter().filter(|(id, v)| c.holds(**id, v)).map(|(id, _)| *id).collect();
         if ids.iter().any(|id| self.owner.get(&(t, *id)).is_some_and(|o| Some(*o) != h)) {
             return None; // lock conflict
@@ -1464,6 +1576,23 @@ impl Sim {
                 self.rows.push(BTreeMap::new());
                 self.next_id.push(1);
                 self.indexed.push(BTreeSet::new());
+                self.exists.push(true);
+            },
+            // refused while an open transaction has uncommitted changes in the table; otherwise rows, indexes and the
+            // row-id counter go with the name
+            Op::DropTable(t) => {
+                if self.exists.get(*t) == Some(&true) && !self.undo.values().any(|log| log.iter().any(|e| e.0 .0 == *t)) {
+                    self.exists[*t] = false;
+                    self.rows[*t].clear();
+                    self.next_id[*t] = 1;
+                    self.indexed[*t].clear();
+                    self.owner.retain(|k, _| k.0 != *t);
+                }
+            },
+            Op::RecreateTable(t) => {
+                if self.exists.get(*t) == Some(&false) {
+                    self.exists[*t] = true;
+                }
             },
             Op::Begin(h) => { self.undo.insert(*h, vec![]); },
             Op::Commit(h) => {
@@ -1484,7 +1613,7 @@ impl Sim {
             },
             Op::TxInsert(_, t, v) | Op::Insert(t, v) => {
                 let h = if let Op::TxInsert(h, ..) = op { Some(*h) } else { None };
-                if *t >= self.rows.len() || v.len() != NCOLS || h.is_some_and(|h| !open(self, &h)) {
+                if self.exists.get(*t) != Some(&true) || v.len() != NCOLS || h.is_some_and(|h| !open(self, &h)) {
                     return;
                 }
                 let id = self.next_id[*t];
@@ -1516,7 +1645,7 @@ impl Sim {
                 }
             },
             Op::BatchInsert(t, rows) => {
-                if *t >= self.rows.len() || rows.iter().any(|v| v.len() != NCOLS) {
+                if self.exists.get(*t) != Some(&true) || rows.iter().any(|v| v.len() != NCOLS) {
                     return;
                 }
                 for v in rows {
@@ -1526,6 +1655,9 @@ impl Sim {
                 }
             },
             Op::CreateIndex(t, c) | Op::CreateBtree(t, c) => {
+                if self.exists.get(*t) != Some(&true) {
+                    return;
+                }
                 if let Some(ix) = self.indexed.get_mut(*t) {
                     ix.insert((*c, matches!(op, Op::CreateBtree(..))));
                 }
@@ -1542,6 +1674,9 @@ impl Sim {
     /// index) of a row `h` may write the value that row holds right now; the second column, when named, gets its
     /// current value too or a random one
     fn same_value_update(&self, rng: &mut Rng, h: Option<usize>, t: usize, pool: &[i64]) -> Option<(Cond, Vec<(usize, i64)>)> {
+        if self.exists.get(t) != Some(&true) {
+            return None;
+        }
         let free: Vec<(u64, Vec<i64>)> = self.rows.get(t)?.iter()
             .filter(|(id, _)| self.owner.get(&(t, **id)).is_none_or(|o| Some(*o) == h))
             .map(|(id, v)| (*id, v.clone())).collect();
@@ -1696,12 +1831,21 @@ fn gen_script(rng: &mut Rng, len: usize, ddl: bool, pool: &[i64]) -> Vec<Op> {
             86..=91 => {
                 if ddl {
                     let c = rng.below(NCOLS as u64) as usize;
-                    ops.push(match rng.below(4) {
+                    // one DDL statement in six drops the table (refused while an open transaction has written it); a name
+                    // that is unused is mostly created again (row ids restart, no index, nothing of the old table left)
+                    let gone = sim.exists.get(t) == Some(&false);
+                    let k = if gone && rng.chance(2, 3) { 5 } else { rng.below(6) };
+                    ops.push(match k {
                         0 => Op::CreateIndex(t, c),
                         1 => Op::CreateBtree(t, c),
                         2 => Op::DropIndex(t, c),
-                        _ => Op::DropBtree(t, c),
+                        3 => Op::DropBtree(t, c),
+                        4 => Op::DropTable(t),
+                        _ => Op::RecreateTable(t),
                     });
+                    if k == 4 {
+                        approx_rows[t] = approx_rows[t].min(3);
+                    }
                 } else {
                     ops.push(Op::Sweep);
                 }
@@ -1761,6 +1905,43 @@ fn directed() -> Vec<(&'static str, Cfg, Vec<Op>)> {
         v
     };
     let mut out = vec![];
+    // REGRESSION CASES OF REPAIRED DEFECTS, run first.
+    // 6f865e8a — drop_table next to an open transaction that has written the table (`DdlModel.lean`,
+    // `drop_table_refused_while_open_transaction_wrote_table`, `rollback_never_touches_table_created_after_own_writes`;
+    // before the fix: `drop_table_ignores_open_transaction_witness`).  (a) the drop is refused with a lock conflict, the
+    // re-creation with TableAlreadyExists, the rollback is clean and the drop is accepted afterwards; before the fix the
+    // rollback found no table and failed; (b) before the fix a table created under the same name meanwhile got the undo
+    // applied to ITS rows: committed row 1 overwritten with the dropped table's old values, committed row 4 deleted;
+    // (c) control: the open transaction wrote ANOTHER table — drop, re-create, rollback are all accepted and clean.
+    let mut s = base(false);
+    s.extend([Begin(0), TxUpdate(0, 0, Cond::Id(1), vec![(0, 4)]), TxInsert(0, 0, vec![4, 4]), DropTable(0), Rollback(0), Sweep, DropTable(0), DropTable(0),
+              RecreateTable(0), RecreateTable(0), Insert(0, vec![2, 2]), Sweep]);
+    out.push(("drop_table_under_open_tx_then_rollback", long, s));
+    let mut s = base(false);
+    s.extend([Begin(0), TxUpdate(0, 0, Cond::Id(1), vec![(0, 4)]), TxDelete(0, 0, Cond::Id(2)), TxInsert(0, 0, vec![4, 4]), DropTable(0), RecreateTable(0),
+              Insert(0, vec![5, 5]), Insert(0, vec![5, 0]), Insert(0, vec![0, 5]), Insert(0, vec![3, 2]), Sweep, Rollback(0), Sweep]);
+    out.push(("drop_recreate_under_open_tx_then_rollback", long, s));
+    let mut s = base(false);
+    s.extend([CreateTable, Insert(1, vec![1, 1]), Begin(0), TxUpdate(0, 1, Cond::All, vec![(0, 2)]), TxSelect(0, 0, Cond::All), DropTable(0), RecreateTable(0),
+              Insert(0, vec![5, 5]), TxInsert(0, 1, vec![3, 3]), Rollback(0), Begin(1), TxUpdate(1, 0, Cond::All, vec![(1, 1)]), Rollback(1), Sweep]);
+    out.push(("drop_recreate_table_untouched_by_open_tx", long, s));
+    // the guard is the undo log, not the row locks: refused for every kind of write (update, delete, insert, a matched row
+    // left unchanged), by whichever of two transactions wrote the table; accepted once the writers have ended — by commit
+    // or by rollback — while a transaction that only READ the table is still open; unknown table
+    let mut s = base(true);
+    s.extend([Begin(0), Begin(1), Begin(2), TxSelect(2, 0, Cond::All), DropTable(9), TxUpdate(0, 0, Cond::Id(2), vec![(1, 2)]), DropTable(0),
+              TxDelete(1, 0, Cond::Id(3)), DropTable(0), Commit(0), DropTable(0), TxInsert(1, 0, vec![4, 4]), Rollback(1), Sweep, DropTable(0), Sweep,
+              TxSelect(2, 0, Cond::All), TxInsert(2, 0, vec![1, 1]), RecreateTable(0), TxInsert(2, 0, vec![1, 1]), DropTable(0), Commit(2), DropTable(0), Sweep]);
+    out.push(("drop_table_refused_until_writers_end", long, s));
+    // 6992261a — the in-memory b-tree maps go with the table (`recreated_table_index_answers_exact`; before the fix:
+    // `drop_table_keeps_btree_map_witness`): indexes on c0 (hash + b-tree) and c1 (b-tree), three rows; drop, re-create,
+    // new rows, the same indexes again: every range answer through the new b-tree indexes is the filter of the scan
+    // (before the fix the dropped table's keys were still filed under the name and rows came back twice)
+    let mut s = base(true);
+    s.extend([Sweep, DropTable(0), RecreateTable(0), Insert(0, vec![5, 5]), Insert(0, vec![1, 0]), CreateBtree(0, 0), Sweep, CreateIndex(0, 0),
+              Insert(0, vec![2, 2]), CreateBtree(0, 1), Sweep, Begin(0), TxUpdate(0, 0, Cond::All, vec![(0, 3)]), TxDelete(0, 0, Cond::Id(2)), Sweep, Rollback(0), Sweep,
+              DropTable(0), RecreateTable(0), CreateBtree(0, 1), Insert(0, vec![0, 0]), Sweep]);
+    out.push(("drop_recreate_then_create_btree_index", long, s));
     // FIRST (no sleeps): a transactional UPDATE that writes an INDEXED column back with the value the row already holds
     // (ORM-style "write all columns"), then rollback — `undo_update_keeps_index_exact`: the undo entry has
     // old value == new value, and the row must still be found through the hash index (Eq) and the b-tree index (ranges)
@@ -1863,21 +2044,6 @@ fn directed() -> Vec<(&'static str, Cfg, Vec<Op>)> {
               BatchInsert(9, vec![vec![1, 1]]), Begin(1), TxUpdate(1, 0, Cond::Ge(0, 5), vec![(0, 0)]), TxDelete(1, 0, Cond::Id(6)),
               TxUpdate(0, 0, Cond::Id(6), vec![(0, 1)]), TxSelect(0, 0, Cond::All), Sweep, Rollback(0), BatchInsert(0, vec![vec![0, 0]]), Sweep, Rollback(1), Sweep]);
     out.push(("batch_insert_beside_open_transactions", long, s));
-    // drop_table under an open transaction (REAL ENGINE ONLY: not in the model).  (a) the rollback finds no table and
-    // fails; (b) a table created under the same name meanwhile gets the undo applied to ITS rows: committed row 1 is
-    // overwritten with the dropped table's old values, committed row 2..4 survive only by luck of their ids; (c) control:
-    // the open transaction never wrote the table — drop, re-create, rollback are all clean
-    let mut s = base(false);
-    s.extend([Begin(0), TxUpdate(0, 0, Cond::Id(1), vec![(0, 4)]), TxInsert(0, 0, vec![4, 4]), DropTable(0), Rollback(0)]);
-    out.push(("drop_table_under_open_tx_then_rollback", long, s));
-    let mut s = base(false);
-    s.extend([Begin(0), TxUpdate(0, 0, Cond::Id(1), vec![(0, 4)]), TxDelete(0, 0, Cond::Id(2)), TxInsert(0, 0, vec![4, 4]), DropTable(0), RecreateTable(0),
-              Insert(0, vec![5, 5]), Insert(0, vec![5, 0]), Insert(0, vec![0, 5]), Insert(0, vec![3, 2]), Sweep, Rollback(0), Sweep]);
-    out.push(("drop_recreate_under_open_tx_then_rollback", long, s));
-    let mut s = base(false);
-    s.extend([CreateTable, Insert(1, vec![1, 1]), Begin(0), TxUpdate(0, 1, Cond::All, vec![(0, 2)]), DropTable(0), RecreateTable(0), Insert(0, vec![5, 5]),
-              Rollback(0), Begin(1), TxUpdate(1, 0, Cond::All, vec![(1, 1)]), Rollback(1), Sweep]);
-    out.push(("drop_recreate_table_untouched_by_open_tx", long, s));
     // both index kinds on the SAME column (hash c0 + b-tree c0 + b-tree c1)
     let mut s = base(true);
     s.extend([Begin(0), TxUpdate(0, 0, Cond::Id(1), vec![(0, 1)]), TxUpdate(0, 0, Cond::All, vec![(1, 2)]), Sweep, Rollback(0), Sweep]);
@@ -1972,6 +2138,14 @@ fn directed() -> Vec<(&'static str, Cfg, Vec<Op>)> {
     s.extend([Begin(0), TxUpdate(0, 0, Cond::Id(1), vec![(0, 4)]), TxInsert(0, 0, vec![5, 5]), Tick(1100), Begin(1), CleanupTxs,
               Commit(0), TxUpdate(1, 0, Cond::Id(1), vec![(0, 2)]), Rollback(1), Sweep]);
     out.push(("tx_expiry_cleanup", short_tx, s));
+    // drop_table and timeouts: an expired row lock does not open the table for a drop (the writer's undo entries are
+    // still there); a transaction removed by cleanup_expired no longer blocks it (its changes stay: known finding)
+    let mut s = base(false);
+    s.extend([Begin(0), TxUpdate(0, 0, Cond::Id(1), vec![(0, 4)]), Tick(1100), DropTable(0), CleanupLocks, DropTable(0), Rollback(0), DropTable(0), RecreateTable(0), Sweep]);
+    out.push(("drop_table_refused_after_lock_expiry", short, s));
+    let mut s = base(false);
+    s.extend([Begin(0), TxUpdate(0, 0, Cond::Id(1), vec![(0, 4)]), Tick(1100), DropTable(0), CleanupTxs, DropTable(0), RecreateTable(0), Insert(0, vec![1, 1]), Rollback(0), Sweep]);
+    out.push(("drop_table_accepted_after_tx_timeout_cleanup", short_tx, s));
     out
 }
 
@@ -2105,12 +2279,14 @@ fn run_sleepers(driver: &str, jobs: Vec<(Cfg, Vec<Op>)>) -> Vec<Outcome> {
 
 // ------------------------------------------------------------------ below statement granularity
 //
-// `tx_update` / `tx_delete` read their rows by a scan and only then take the row locks.  The cases here put other
-// transactions' committed work INTO that gap.  With the verification hook of
-// /verif/proposed/C09-hook-yield-between-scan-and-lock.diff (yield sites `relational.tx_{update,delete}.after_scan`)
-// the interleaving is forced deterministically by the scheduler and compared with the Lean model of the two halves
-// (`RaceModel.lean`: scan_update / apply_update …); without the hook a two-thread stress run looks for the same effect.
-// CANDIDATE FINDING, not yet decided: what the oracles find here is recorded with `rep.observe`, not as a violation.
+// `tx_update` / `tx_delete` read their rows by a scan and only then take the row locks; since fcb86137 they read the
+// locked rows again and work on what they find then.  The cases here put other transactions' committed work INTO that
+// gap.  Through the yield sites `relational.tx_{update,delete}.after_scan` (23d1986f, cfg(neumann_verif)) the
+// interleaving is forced deterministically by the scheduler and compared with the Lean model of the two halves
+// (`RaceModel.lean`: scan_update / apply_update …, `second_half_is_safe_for_any_scan`).  Oracles on the real engine's
+// own answers (regression of fcb86137 = `scan_before_lock_*_witness`): a rolled-back A leaves exactly the others'
+// committed work (class relational_engine.tx_update|tx_delete/committed_write_lost_scan_before_lock), every index
+// answer is the filter of the scan, a statement that fails has changed nothing.  A two-thread stress run is an extra.
 
 struct RaceCase {
     name: &'static str,
@@ -2254,14 +2430,10 @@ fn run_race_case(case: &RaceCase, model: &mut Model) -> (bool, Vec<(String, Stri
         // insert answers the row id on the wire
         ask(model, op.line(&|h| h.to_string()), Some(r.as_str()));
     }
-    // the second half AS THE CODE IS; with VERIF_C09_REREAD=1 (a tree that has
-    // /verif/proposed/C09-tx-write-rereads-rows-after-lock.diff) the repaired second half of the model
-    let reread = std::env::var("VERIF_C09_REREAD").is_ok_and(|v| v == "1");
-    match (&case.a_upd, reread) {
-        (Some(u), false) => ask(model, format!("apply_update {mtx} 0 {}", upd_tok(u)), Some(a_result.as_str())),
-        (None, false) => ask(model, format!("apply_delete {mtx} 0"), Some(a_result.as_str())),
-        (Some(u), true) => ask(model, format!("apply_update_fixed {mtx} 0 {} {}", case.a_cond.tok(), upd_tok(u)), Some(a_result.as_str())),
-        (None, true) => ask(model, format!("apply_delete_fixed {mtx} 0 {}", case.a_cond.tok()), Some(a_result.as_str())),
+    // the second half as the code is (fcb86137): the scanned ids are locked, the rows read again
+    match &case.a_upd {
+        Some(u) => ask(model, format!("apply_update {mtx} 0 {} {}", case.a_cond.tok(), upd_tok(u)), Some(a_result.as_str())),
+        None => ask(model, format!("apply_delete {mtx} 0 {}", case.a_cond.tok()), Some(a_result.as_str())),
     }
     let img_tok = |eng: &RelationalEngine| {
         let rows: Vec<(u64, Vec<i64>)> = race_image(eng).into_iter().collect();
@@ -2461,9 +2633,60 @@ fn id_index_stream(rep: &mut Report, seed_rng: &mut Rng, n: usize) {
     }
 }
 
-fn race_stream(rep: &mut Report, model: &mut Model, thorough: bool) {
+/// PROBE (real engine only, an observation — not part of the modelled statement set): `create_index` /
+/// `create_btree_index` by somebody else in the gap between A's scan and A's locks.  `tx_update` reads the table's index
+/// lists BEFORE its scan, so an index created in the gap is not maintained by A's second half.  Index DDL concurrent with
+/// a running statement is outside the model's statement set (`calm` covers index DDL between statements only); what the
+/// probe sees is recorded with `rep.observe` for the coordinator to decide.
+fn race_ddl_probe(rep: &mut Report) {
+    use std::sync::Arc;
+    for btree in [false, true] {
+        let eng = Arc::new(RelationalEngine::with_config(RelationalConfig::default().with_lock_timeout_secs(30).with_transaction_timeout_secs(60)));
+        let schema = Schema::new((0..NCOLS).map(|c| Column::new(format!("c{c}"), ColumnType::Int)).collect());
+        eng.create_table("t0", schema).unwrap();
+        for r in [[1i64, 1], [2, 2]] {
+            eng.insert("t0", r.iter().enumerate().map(|(c, x)| (format!("c{c}"), Value::Int(*x))).collect()).unwrap();
+        }
+        let tx = eng.begin_transaction();
+        let e1 = eng.clone();
+        let task_a: Box<dyn FnOnce() + Send> = Box::new(move || {
+            let _ = e1.tx_update(tx, "t0", Condition::Eq("_id".into(), Value::Int(1)), HashMap::from([("c1".to_string(), Value::Int(4))]));
+        });
+        let e2 = eng.clone();
+        let task_b: Box<dyn FnOnce() + Send> = Box::new(move || {
+            let _ = if btree { e2.create_btree_index("t0", "c1") } else { e2.create_index("t0", "c1") };
+        });
+        let mut reached = false;
+        let trace = nverif::sched::run_threads(vec![task_a, task_b], |_, parked| {
+            if parked.iter().any(|p| p.0 == 0 && p.1.ends_with(".after_scan")) {
+                reached = true;
+            }
+            let want = if reached && parked.iter().any(|p| p.0 == 1) { 1 } else { 0 };
+            parked.iter().position(|p| p.0 == want).unwrap_or(0)
+        });
+        if !trace.iter().any(|s| s.site.ends_with(".after_scan")) {
+            let _ = eng.rollback(tx);
+            rep.hit("race_ddl_probe:hook_absent");
+            continue;
+        }
+        let _ = eng.commit(tx);
+        let (hc, bc): (Vec<usize>, Vec<usize>) = if btree { (vec![], vec![1]) } else { (vec![1], vec![]) };
+        match race_index_check(&eng, &hc, &bc) {
+            Some(w) => {
+                rep.hit(&format!("race_ddl_probe:{}:index_answer_wrong", if btree { "btree" } else { "hash" }));
+                rep.observe(json!({"class": format!("relational_engine.tx_update/index_created_between_scan_and_lock_not_maintained:{}", if btree { "btree" } else { "hash" }),
+                    "what": format!("rows [1,1],[2,2]; A: tx_update _id=1 set c1=4; in the gap between A's scan and A's locks somebody runs {} on c1; A's statement ends, A commits: {w} \
+                                     (tx_update read the table's index lists before its scan)", if btree { "create_btree_index" } else { "create_index" }),
+                    "inside_quantifier": "undecided: index DDL concurrent with a running statement (the model's statements are index DDL BETWEEN statements)"}));
+            },
+            None => rep.hit(&format!("race_ddl_probe:{}:clean", if btree { "btree" } else { "hash" })),
+        }
+    }
+}
+
+/// the scheduled cases (deterministic); returns whether the yield sites were there
+fn race_scheduled(rep: &mut Report, model: &mut Model, tally: &mut Tally) -> bool {
     let mut hook_seen = false;
-    let mut seen: BTreeSet<String> = BTreeSet::new();
     for case in race_cases() {
         let (hook, findings, dis) = run_race_case(&case, model);
         rep.case("race", if hook { Some(case.name) } else { None });
@@ -2473,27 +2696,43 @@ fn race_stream(rep: &mut Report, model: &mut Model, thorough: bool) {
             rep.disagree("race.split_statement", json!({"case": case.name, "query": q}), &imp, &mdl);
         }
         for (class, what) in findings {
-            rep.hit(&format!("observed:{class}"));
-            if seen.insert(class.clone()) {
-                rep.observe(json!({"class": class, "what": what, "case": case.name,
-                                   "inside_quantifier": "undecided: interleaving below statement granularity (candidate finding)"}));
+            rep.hit(&format!("violation:{class}"));
+            let n = tally.per_class.entry(class.clone()).or_insert(0);
+            *n += 1;
+            if *n > 2 {
+                continue;
             }
+            rep.violation(&class, &what, json!({
+                "case": case.name,
+                "setup": {"table": "t0 (c0, c1 Int)", "indexes": case.indexes.iter().map(|(c, bt)| format!("{} on c{c}", if *bt { "b-tree" } else { "hash" })).collect::<Vec<_>>(),
+                          "rows": case.rows},
+                "A": format!("begin; {} t0 {} {}", if case.a_upd.is_some() { "tx_update" } else { "tx_delete" }, case.a_cond.tok(),
+                             case.a_upd.as_ref().map_or(String::new(), |u| upd_tok(u))),
+                "schedule": "A runs to the yield site relational.tx_update.after_scan / relational.tx_delete.after_scan (rows read, locks not yet held); \
+                             then the statements of `in_the_gap` run to their end (each one non-transactional, i.e. committed); then A's statement \
+                             runs to its end; then A ends",
+                "in_the_gap": case.gap.iter().map(|o| o.show()).collect::<Vec<_>>(),
+                "A_ends_by": if case.a_commits { "commit" } else { "rollback" },
+            }));
         }
     }
     if !hook_seen {
-        rep.note("the yield sites relational.tx_{update,delete}.after_scan are not in this tree (see /verif/proposed/C09-hook-yield-between-scan-and-lock.diff): \
-                  the scheduled scan-before-lock cases did not run; the two-thread stress run stands in for them");
+        rep.note("the yield sites relational.tx_{update,delete}.after_scan (23d1986f) are not in this tree: the scheduled scan-before-lock cases did NOT run; \
+                  only the two-thread stress run looks at the gap between a statement's scan and its row locks");
     }
-    // the stress run (real threads, no scheduler): cheap, not deterministic — an observation either way
+    hook_seen
+}
+
+/// the stress run (real threads, no scheduler): cheap, not deterministic — an extra beside the scheduled cases
+fn race_stress_stream(rep: &mut Report, thorough: bool, hook_seen: bool) {
     let (nrows, rounds) = if thorough { (4000, 400) } else { (2000, 120) };
+    rep.case("race", None);
     match race_stress(nrows, rounds) {
         Some(what) => {
-            rep.hit("observed:relational_engine.tx_update/committed_write_lost_scan_before_lock");
             rep.hit("race_stress:lost_update_seen");
-            if seen.insert("stress".into()) {
-                rep.observe(json!({"class": "relational_engine.tx_update/committed_write_lost_scan_before_lock", "what": what, "case": "two_thread_stress",
-                                   "inside_quantifier": "undecided: interleaving below statement granularity (candidate finding)"}));
-            }
+            rep.violation("relational_engine.tx_update/committed_write_lost_scan_before_lock", &what,
+                          json!({"case": "two_thread_stress", "rows": nrows, "committed_updates_by_B": rounds, "deterministic": false,
+                                 "scheduled_cases_ran": hook_seen}));
         },
         None => rep.hit("race_stress:clean"),
     }
@@ -2525,15 +2764,6 @@ fn absorb(rep: &mut Report, tally: &mut Tally, stream: &str, cfg: Cfg, ops: &[Op
         rep.disagree(&format!("{stream}.{s}"), input, &imp, &mdl);
     }
     for (class, what, step) in out.violations {
-        if class.starts_with("relational_engine.drop_table/") {
-            // candidate finding, reported to the coordinator; until it is decided it is an observation, not a violation
-            rep.hit(&format!("observed:{class}"));
-            if tally.per_class.insert(format!("observed:{class}"), 1).is_none() {
-                rep.observe(json!({"class": class, "what": what, "inside_quantifier": "undecided: DDL under an open transaction",
-                                   "script": ops[..=step.min(ops.len() - 1)].iter().map(|o| o.show()).collect::<Vec<_>>()}));
-            }
-            continue;
-        }
         let n = tally.per_class.entry(class.clone()).or_insert(0);
         *n += 1;
         rep.hit(&format!("violation:{class}"));
@@ -2595,9 +2825,9 @@ fn main() {
             outs
         })
     };
-    let real_only = |ops: &Vec<Op>| ops.iter().any(|o| matches!(o, Op::DropTable(_) | Op::RecreateTable(_)));
-    let mut quick_outs: Vec<Outcome> = dir.iter().filter(|d| !has_tick(&d.2))
-        .map(|d| if real_only(&d.2) { exec_script(&d.2, d.1, None) } else { exec_script(&d.2, d.1, Some(&mut model)) }).collect();
+    // 0. regression cases below statement granularity (fcb86137), scheduled through the yield sites: run first
+    let race_hook_seen = race_scheduled(&mut rep, &mut model, &mut tally);
+    let mut quick_outs: Vec<Outcome> = dir.iter().filter(|d| !has_tick(&d.2)).map(|d| exec_script(&d.2, d.1, Some(&mut model))).collect();
     quick_outs.reverse();
     let mut sleeper_outs = dir_sleepers.join().expect("directed sleepers panicked");
     sleeper_outs.reverse();
@@ -2625,9 +2855,16 @@ fn main() {
             rep.note(&format!("known finding {class} was NOT reproduced by the directed scenarios of this run"));
         }
     }
-    // the fixed findings (c322e794, dcf916e8) must stay fixed: their directed scenarios ran above without a violation
+    // the fixed findings (c322e794, dcf916e8, fcb86137, 6f865e8a, 6992261a) must stay fixed: their directed scenarios ran
+    // above without a violation
     for class in ["relational_engine.tx_insert/uncommitted_insert_not_locked", "relational_engine.rollback/phantom_row",
-                  "relational_engine.create_btree_index/duplicate_row_in_index_answer"] {
+                  "relational_engine.create_btree_index/duplicate_row_in_index_answer",
+                  "relational_engine.tx_update/committed_write_lost_scan_before_lock",
+                  "relational_engine.tx_delete/committed_write_lost_scan_before_lock",
+                  "relational_engine.drop_table/accepted_under_open_transaction",
+                  "relational_engine.drop_table/open_transaction_undo_applied_to_recreated_table",
+                  "relational_engine.drop_table/open_transaction_rollback_fails_after_drop",
+                  "relational_engine.btree_index/stale_in_memory_tree_after_drop_table"] {
         if !tally.per_class.contains_key(class) {
             rep.hit(&format!("fixed_stays_fixed:{class}"));
         }
@@ -2701,8 +2938,10 @@ fn main() {
     let mut rng = root.fork("id_index");
     id_index_stream(&mut rep, &mut rng, if args.thorough { 400 } else { 40 });
 
-    // 6. below statement granularity: the gap between a statement's scan and its row locks
-    race_stream(&mut rep, &mut model, args.thorough);
+    // 6. below statement granularity once more, without the scheduler: two real threads (an extra; the scheduled cases
+    //    ran first)
+    race_stress_stream(&mut rep, args.thorough, race_hook_seen);
+    race_ddl_probe(&mut rep);
 
     rep.expected_branches = [
         "op:commit:ok", "op:commit:tx_not_found", "op:rollback:ok", "op:rollback:tx_not_found", "op:rollback:rollback_failed",
@@ -2716,8 +2955,23 @@ fn main() {
         "id_index_script",
         "directed:batch_insert_beside_open_transactions", "directed:drop_table_under_open_tx_then_rollback",
         "directed:drop_recreate_under_open_tx_then_rollback", "directed:drop_recreate_table_untouched_by_open_tx",
-        "observed:relational_engine.drop_table/open_transaction_undo_applied_to_recreated_table",
-        "observed:relational_engine.drop_table/open_transaction_rollback_fails_after_drop", "op:batch_insert:ok", "op:batch_insert:bad_input", "op:batch_insert:table_not_found",
+        "directed:drop_table_refused_until_writers_end", "directed:drop_recreate_then_create_btree_index",
+        "directed:drop_table_refused_after_lock_expiry", "directed:drop_table_accepted_after_tx_timeout_cleanup",
+        "op:drop_table:ok", "op:drop_table:lock_conflict", "op:drop_table:table_not_found", "op:create_table:table_exists",
+        "drop_table_refused:open_transaction_wrote_table", "drop_table_accepted:no_transaction_open",
+        "drop_table_accepted:open_transactions_elsewhere", "table_recreated_under_same_name",
+        "tx_insert_lock_check:new_row_held_by_inserter",
+        "race:update_in_gap_then_rollback:scheduled", "race:update_same_column_in_gap_then_rollback:scheduled",
+        "race:update_same_column_in_gap_then_commit:scheduled", "race:delete_in_gap_then_update_rollback:scheduled",
+        "race:delete_in_gap_then_delete_rollback:scheduled", "race:row_leaves_condition_in_gap:scheduled",
+        "race:control_nothing_in_gap:scheduled", "race_stress:clean",
+        "fixed_stays_fixed:relational_engine.tx_update/committed_write_lost_scan_before_lock",
+        "fixed_stays_fixed:relational_engine.tx_delete/committed_write_lost_scan_before_lock",
+        "fixed_stays_fixed:relational_engine.drop_table/accepted_under_open_transaction",
+        "fixed_stays_fixed:relational_engine.drop_table/open_transaction_undo_applied_to_recreated_table",
+        "fixed_stays_fixed:relational_engine.drop_table/open_transaction_rollback_fails_after_drop",
+        "fixed_stays_fixed:relational_engine.btree_index/stale_in_memory_tree_after_drop_table",
+        "op:batch_insert:ok", "op:batch_insert:bad_input", "op:batch_insert:table_not_found",
         "directed:failed_statements_change_nothing", "directed:null_values_indexed_rollback", "directed:null_values_indexed_commit",
         "op:update:bad_input", "op:tx_update:bad_input", "null_stored:omitted", "null_stored:explicit", "null_assigned_by_update",
         "null_compared_in_condition", "directed:extreme_values_hash_and_btree", "op:insert:ok", "op:update:ok", "op:update:lock_conflict", "op:delete_rows:ok",
@@ -2745,7 +2999,8 @@ fn main() {
     ].iter().map(|s| s.to_string()).collect();
     rep.note("time: the engine reads SystemTime::now() (no clock hook); lock/transaction timeouts are whole seconds, so timeout \
               scripts use 1 s timeouts and real 1100 ms sleeps; the exact `elapsed == timeout` millisecond boundary is not exercised");
-    rep.note("statements are atomic in the model; interleavings inside one statement (real threads) are not explored here");
+    rep.note("statements are atomic in the model; the one interleaving point inside a statement that is explored is the gap between the scan and the row \
+              locks of tx_update / tx_delete (stream race, scheduled through the yield sites of 23d1986f)");
     rep.note("TransactionInactive is unreachable at statement granularity (commit/rollback remove the transaction in the same call)");
     rep.observe(json!({"what": "rolled-back inserts consume row ids (slab slots are append-only); the next inserted id differs from a run without the transaction",
                        "inside_quantifier": false}));
